@@ -411,6 +411,15 @@ def mutant_selftest(pid, P):
     import tempfile
     res = []
     pats = sorted(glob.glob(os.path.join(VERIF, "mutants", pid, "*.diff")) + glob.glob(os.path.join(VERIF, "seeded", pid + "*", "patch.diff")))
+
+    def _live(patch):
+        # a seeded change that a later fix: commit neutralised (meta.json: confirmed false / superseded) is a record, not a self-test
+        meta = os.path.join(os.path.dirname(patch), "meta.json")
+        try:
+            return not (os.path.basename(patch) == "patch.diff" and os.path.exists(meta) and json.load(open(meta)).get("confirmed") is False)
+        except Exception:      # noqa
+            return True
+    pats = [x for x in pats if _live(x)]
     try:
         # the reverse of every fix: commit recorded for this property must bring the violation back
         for f in json.load(open(os.path.join(VERIF, "known_findings.json")))["findings"]:
